@@ -49,6 +49,19 @@ pub fn set_handler(h: Handler) -> Result<(), ()> {
     }
 }
 
+/// environment of the process: SIGINT's disposition is not the default when the program starts (`SIG_IGN` inherited from a
+/// shell that started it in the background, a handler some library installed first). `ctrlc::set_handler` overrides
+/// that, `ctrlc::try_set_handler` refuses to.
+pub static SIGINT_NOT_DEFAULT_AT_START: std::sync::atomic::AtomicBool = std::sync::atomic::AtomicBool::new(false);
+
+/// called by the ctrlc facade for `try_set_handler`
+pub fn try_set_handler(h: Handler) -> Result<(), ()> {
+    if SIGINT_NOT_DEFAULT_AT_START.load(std::sync::atomic::Ordering::SeqCst) {
+        return Err(());
+    }
+    set_handler(h)
+}
+
 pub fn handler_installed() -> bool {
     STATE.lock().unwrap().as_ref().map(|s| s.handler.is_some() || s.thread.is_some()).unwrap_or(false)
 }
